@@ -942,14 +942,14 @@ def run_c15(ctx, plan):
 # the concurrent cache under several threads (modes S and F)
 
 CONC_PROGS = {"ii": 2, "ii2": 2, "ixi": 2, "upd": 2, "rej": 2, "syncs": 2, "ia": 2, "wgt": 2, "xget": 2,
-              "ttl": 2, "tti": 2, "three": 3, "three2": 3, "burst": 2, "ttix": 2, "grow": 2, "iax": 2, "farw": 2, "farx": 2, "iasy": 2, "xaxa": 2, "putback": 2,
+              "ttl": 2, "tti": 2, "three": 3, "three2": 3, "burst": 2, "ttix": 2, "grow": 2, "iax": 2, "farw": 2, "farx": 2, "iasy": 2, "xaxa": 2, "putback": 2, "syncflag": 2,
               "all_unit": 2, "all_wgt": 2, "all_exp": 2}
 CONC_QUICK = ["ii", "upd", "rej", "ixi", "wgt", "xget", "burst", "ttix", "grow", "iax", "farx", "iasy", "xaxa", "putback"]
 CONC_LIGHT = ["ii", "rej", "syncs", "grow"]
 # programs replayed once more with scaled queues (flush point, read slots, write slots): small programs
 # then reach a full queue, the writers' retry loop and maintenance triggered by the flush point
 SCALED = (2, 3, 2)
-CONC_SCALED = ["burst", "ii2", "three2"]
+CONC_SCALED = ["burst", "ii2", "three2", "syncflag"]
 FINE_PROGS = ["putback", "rej", "upd", "wgt", "farx"]
 # "all" slices: the share of the programs whose schedules are emitted and replayed (1 / m), quick / thorough
 ALL_PICK = {"all_unit": (24, 8), "all_wgt": (60, 20), "all_exp": (60, 20)}
